@@ -127,7 +127,12 @@ func (k *Keyring) RemoveKey(key []byte) error {
 	}
 	for i, installedKey := range k.keys {
 		if bytes.Equal(key, installedKey) {
-			keys := append(k.keys[:i], k.keys[i+1:]...)
+			// Build a fresh slice: appending in place would shift the
+			// elements of the backing array shared with slices previously
+			// returned by GetKeys.
+			keys := make([][]byte, 0, len(k.keys)-1)
+			keys = append(keys, k.keys[:i]...)
+			keys = append(keys, k.keys[i+1:]...)
 			k.installKeysLocked(keys, k.keys[0])
 		}
 	}
